@@ -163,6 +163,15 @@ def operand_alias(f, wrapper, call):
     return al
 
 
+KERNEL_PUB = {}      # kernel qualname -> name of the public function that hands it to the wrapper
+
+
+def pub_name(k):
+    if k.qualname in KERNEL_PUB:
+        return KERNEL_PUB[k.qualname]
+    return k.parent.name if k.parent is not None else k.name
+
+
 def kernel_typing(ck, rule, only=None, note_events=None):
     """C07.R3 / C08.R1 / C09.R1 / C15.R2: every raw kernel returns Code<n_frac> for its own (free) n_frac."""
     prog = ck.prog
@@ -181,6 +190,7 @@ def kernel_typing(ck, rule, only=None, note_events=None):
                 continue
             ops = [p for p in params[:params.index("n_frac")]]
             n_k += 1
+            KERNEL_PUB[k.qualname] = f.name
 
             def ren(d, al=al):
                 head = d.split(".")[0]
@@ -302,9 +312,9 @@ def single_quantization(ck, rule, results, only=None):
     re-scaled result, and quotients are formed by integer floor division."""
     for q, (t, events, ret, pf) in sorted(results.items()):
         f = ck.prog.funcs[q]
-        if only is not None and f.parent.name not in only:
+        if only is not None and pub_name(f) not in only:
             continue
-        badev = [e for e in events if e[0] in ("intcast", "round", "adjust", "recast")] + ([e for e in events if e[0] == "clamp"] if f.parent.name not in ("clip", "fxp_max", "fxp_min") else [])
+        badev = [e for e in events if e[0] in ("intcast", "round", "adjust", "recast")] + ([e for e in events if e[0] == "clamp"] if pub_name(f) not in ("clip", "fxp_max", "fxp_min") else [])
         # cumprod's int_array over the list of conversion factors is a Pow2 list, not a code: events only record casts of codes
         ck.check(not badev, rule, f, "the kernel result reaches the sink without an intermediate rounding or integer cast",
                  "%s applied inside the kernel: %s" % (badev[0][0], src(badev[0][1])[:90]) if badev else "", pf.ret_stmt,
@@ -502,7 +512,7 @@ def alignment_exponents_nonneg(ck, rule, results, names, nfrac_of):
     prog = ck.prog
     for q, (t, events, ret, pf) in sorted(results.items()):
         k = prog.funcs[q]
-        fn = k.parent.name
+        fn = pub_name(k)
         if fn not in names or fn not in nfrac_of:
             continue
         nf = nfrac_of[fn]
@@ -618,7 +628,7 @@ def division_operators(ck, rule, results):
     prog = ck.prog
     for q, (t, events, ret, pf) in sorted(results.items()):
         k = prog.funcs[q]
-        fn = k.parent.name
+        fn = pub_name(k)
         if fn not in ("truediv", "floordiv", "mod"):
             continue
         td = [e for e in events if e[0] == "truediv"]
@@ -728,29 +738,32 @@ def routes_converge(ck, rule):
         regs = reg.get(npname, [])
         ck.check(regs == [fn], rule, "fxpmath/functions.py", "%s is implemented by functions.%s (and only it)" % (npname, fn), "%s registered for %s" % (regs, npname), None,
                  "numpy dispatch and the method would run different code")
-        rets = [n for n in ast.walk(m.node) if isinstance(n, ast.Return)]
         good = False
-        for rt in rets:
-            if isinstance(rt.value, ast.Call) and prog.resolve_call(m, rt.value) == "functions." + fn:
-                c = rt.value
-                good = True
-                if not (c.args and dotted(c.args[0]) == "self"):
-                    ck.bad(rule, m, "%s passes self as the operand" % meth, src(c)[:80], rt)
-                for k_ in ("out", "out_like", "sizing", "method"):
-                    v = kw(c, k_)
-                    ck.check(v is not None and dotted(v) == k_, rule, m, "%s forwards %s" % (meth, k_), "%s=%s" % (k_, src(v) if v is not None else None), rt, nontrivial=False)
-                for p in m.params:
-                    if p in ("self", "x"):
-                        continue
-                    v = kw(c, p)
-                    ck.check(v is not None and dotted(v) == p, rule, m, "%s forwards its %s argument" % (meth, p), "%s=%s" % (p, src(v) if v is not None else None), rt)
-                # defaults popped from config
-                for n in ast.walk(m.node):
-                    if isinstance(n, ast.Assign) and isinstance(n.value, ast.Call) and dotted(n.value.func) == "kwargs.pop" and len(n.value.args) == 2:
-                        key = const_str(n.value.args[0])
-                        want = {"out": "self.config.op_out", "out_like": "self.config.op_out_like", "sizing": "self.config.op_sizing", "method": "self.config.op_method"}.get(key)
-                        if want and not (meth == "dot" and key == "sizing"):
-                            ck.check(dotted(n.value.args[1]) == want, rule, m, "%s takes the default of %s from its configuration" % (meth, key), src(n)[:80], n, nontrivial=False)
+        want_default = {"out": "self.config.op_out", "out_like": "self.config.op_out_like", "sizing": "self.config.op_sizing", "method": "self.config.op_method"}
+        for pf in fpaths(prog, m):
+            if pf.end != "return" or pf.ret is None:
+                continue
+            c = peel(pf.ret)[0]
+            rt = pf.ret_stmt
+            if not (isinstance(c, ast.Call) and prog.resolve_call(m, c) == "functions." + fn):
+                continue
+            good = True
+            if not (c.args and dotted(c.args[0]) == "self"):
+                ck.bad(rule, m, "%s passes self as the operand" % meth, src(c)[:80], rt)
+            for k_ in ("out", "out_like", "sizing", "method"):
+                v = kw(c, k_)
+                # the substituted keyword is the method's own parameter, or the entry popped from **kwargs with the configured default
+                okf = v is not None and dotted(v) == k_ and k_ in m.params
+                if not okf and isinstance(v, ast.Call) and dotted(v.func) in ("kwargs.pop", "kwargs.get") and v.args and const_str(v.args[0]) == k_:
+                    okf = True
+                    if len(v.args) == 2 and not (meth == "dot" and k_ == "sizing"):
+                        ck.check(dotted(v.args[1]) == want_default[k_], rule, m, "%s takes the default of %s from its configuration" % (meth, k_), src(v)[:80], rt, nontrivial=False)
+                ck.check(okf, rule, m, "%s forwards %s" % (meth, k_), "%s=%s" % (k_, src(v)[:60] if v is not None else None), rt, nontrivial=False)
+            for p in m.params:
+                if p in ("self", "x"):
+                    continue
+                v = kw(c, p)
+                ck.check(v is not None and dotted(v) == p, rule, m, "%s forwards its %s argument" % (meth, p), "%s=%s" % (p, src(v)[:60] if v is not None else None), rt)
         ck.check(good, rule, m, "Fxp.%s returns functions.%s(self, ...)" % (meth, fn), "Fxp.%s does not call functions.%s" % (meth, fn), m.node,
                  "the method and numpy routes compute different things")
     # sort: in place on the codes (documented exception) and np.sort -> functions.sort
